@@ -400,6 +400,9 @@ fn compare(
             if value != v {
                 return Err(format!("the message names the unknown value `{value}` but the report says `{v}`"));
             }
+            if !matches!(here, Doc::Str(s) if s == value) {
+                return Err(format!("the message quotes the unknown value `{value}`; the payload holds {} at {}", here.render(), path_str(path)));
+            }
             alts(value, suggestion, accepted, a)
         }
         (Parsed::ArrayLen { received, expected, json, .. }, First::Kind(KindSnap::BadSequenceLen { actual, expected: e })) => {
@@ -418,9 +421,15 @@ fn compare(
             if msg != m {
                 return Err(format!("the detail message reads {msg:?}, the report carries {m:?}"));
             }
+            // what the library's own free text says about the value must be true of the value the
+            // printed path leads to
+            if let Some(why) = crate::rules::unexpected_claims(msg, here) {
+                return Err(format!("at {}: {why}", path_str(path)));
+            }
             Ok(())
         }
         (Parsed::Invalid { msg, .. }, First::Foreign(token)) => {
+            let token = &crate::parties::user_shown(token);
             if msg != token {
                 return Err(format!("the detail message reads {msg:?}, the user error was {token:?}"));
             }
